@@ -267,11 +267,11 @@ def _run_c36(chk, tier):
     thorough = tier == "thorough"
     vlib.harness_build(BIN)
     nbeh, rsteps = _leg_sread(chk, "C36", thorough)
-    tr, events = _record("exec", tier, "C36_trace.ndjson")
-    nev = _validate(chk, "C36", tr, events, parallel=4)
-    # the recorded finding, kept apart (every session of it is rejected at its first load)
-    trp, evp = _record("ldcpad", tier, "C36_ldcpad.ndjson")
-    nev += _validate(chk, "C36", trp, evp, parallel=1, max_rejections=40)
+    # exec: the main sessions; ldcpad: loads whose alignment padding lies over object bytes (regression scenario of the
+    # repaired finding, small segments of their own so that a regression rejects only them)
+    tr, events = _record("exec,ldcpad", tier, "C36_trace.ndjson")
+    nev = _validate(chk, "C36", tr, events, parallel=4, max_rejections=14)
+    evp = [e for e in events if e.get("part") == "ldcpad"]
     steps = [e for e in events if e.get("ev") == "Step"]
     chk.set("steps", len(steps))
     chk.set("sessions", len([e for e in events if e.get("ev") == "Init"]))
@@ -280,7 +280,7 @@ def _run_c36(chk, tier):
         k = "%s/%s" % ((e.get("word") or "--")[:2], e.get("out"))
         by[k] = by.get(k, 0) + 1
     chk.set("steps_by_opcode_outcome", by)
-    chk.set("ldcpad_steps", len([e for e in evp if e.get("ev") == "Step"]))
+    chk.set("ldcpad_steps", len(evp))
     for e in [x for x in steps if x.get("out") == "proceed" and (x.get("word") or "--")[:2] in ("32", "2e", "bb")][2:5]:
         chk.sample(tc._short({k: v for k, v in e.items() if k != "acc"}, 700))
     if chk.violations:
